@@ -27,7 +27,7 @@ MANIFEST = dict(
          'identifier filters, callback order shuffled, timer jitter): the observed order of arrivals, consumer pops, handler returns and main-loop polls is fed to the model driver and the '
          'spas in order, return time, closed endpoint, consumer fate, found flag and queue length are compared; the threaded twin\'s '
          '_on_discovered is compared against its own model function; direct monitors on the real locator.'
-         " Since session 3: identifier + foreign static address filters; a direct oracle on the blocking locator (each spa once, first reply's fields). Session 4: the blocking locator runs for real (its engine and retry threads, its waiting loop, a scripted OS socket, scaled waits) and the time at which start_discovery(True) returns is checked for five reply patterns. State inventory of both discovery callbacks (discovery_state_inventory). Discovery inside an entered task manager with the housekeeping task woken at every loop step around its start. Round 14: discovery through GeckoAsyncSpaMan.async_locate_spas, several times per manager, filtered / unfiltered, across resets.",
+         " Since session 3: identifier + foreign static address filters; a direct oracle on the blocking locator (each spa once, first reply's fields). Session 4: the blocking locator runs for real (its engine and retry threads, its waiting loop, a scripted OS socket, scaled waits) and the time at which start_discovery(True) returns is checked for five reply patterns. State inventory of both discovery callbacks (discovery_state_inventory). Discovery inside an entered task manager with the housekeeping task woken at every loop step around its start. Round 14: discovery through GeckoAsyncSpaMan.async_locate_spas, several times per manager, filtered / unfiltered, across resets. Round 15: a reset landing 0 / 0.01 / 1.5 s INTO a discovery that the client runs on the manager (locate-reset plans); the endpoint clause counts the endpoints of the discoveries the plan runs.",
     note='Partial: the timing clauses are theorems about the lockstep tick model; real timer skew is outside (jittered runs are still '
          'compared exactly because the model accepts any schedule, and the monitors bound the return time by the skew). Hypothesis kept '
          'visible: spa identifiers contain no "|" and do not start with IOS/AND (true of SPA+MAC identifiers; id_hypothesis_needed shows '
@@ -814,13 +814,19 @@ def run_manager_discoveries(plan):
             t0 = loop.time()
             rec = {"step": list(step)}
             try:
-                found = await asyncio.wait_for(m.async_locate_spas(step[1], step[2]), 60)
+                if step[0] == "locate-reset":       # the reconnect button while a discovery is listening: the reset lands `step[3]` s into it
+                    job = asyncio.ensure_future(m.async_locate_spas(step[1], step[2]))
+                    await asyncio.sleep(step[3])
+                    await m.async_reset()
+                    found = await asyncio.wait_for(job, 60)
+                else:
+                    found = await asyncio.wait_for(m.async_locate_spas(step[1], step[2]), 60)
                 rec["spas"] = [[d.identifier_as_string, d.name, d.ipaddress] for d in (found or [])]
             except Exception as e:  # noqa
                 rec["raised"] = f"{type(e).__name__}: {e}"
             rec["took_s"] = round(loop.time() - t0, 2)
             await asyncio.sleep(0.3)
-            rec["open_endpoints"] = sum(1 for t in loop.transports if not t.closed)
+            rec["open_endpoints"] = sum(1 for t in loop.transports if not t.closed and t.kw.get("allow_broadcast") and not getattr(t, "task_name", "").startswith("SPAMAN"))      # the endpoints of the discoveries run here (after a reset the manager's pump may run its own, or go on to connect)
             rec["loc_tasks"] = sorted(t.get_name() for t in asyncio.all_tasks() if t.get_name().startswith("LOC:") and not t.done())
             out.append(rec)
         await m.__aexit__(None, None, None)
@@ -832,6 +838,8 @@ MANAGER_PLANS = [
     [("locate", None, None), ("locate", "10.0.0.9", None), ("reset",), ("locate", None, None), ("locate", "10.0.0.9", None), ("locate", "10.0.0.9", None)],
     [("locate", None, "IDENT"), ("locate", None, "IDENT"), ("reset",), ("locate", None, "IDENT"), ("locate", None, None)],
     [("locate", "10.0.0.9", "IDENT"), ("reset",), ("locate", "10.0.0.9", "IDENT"), ("reset",), ("locate", "10.0.0.9", "IDENT")],
+    [("locate-reset", None, None, 0.0), ("locate-reset", None, "IDENT", 0.0), ("locate-reset", "10.0.0.9", None, 0.0), ("locate", None, None)],
+    [("locate-reset", None, None, 0.01), ("locate-reset", None, "IDENT", 0.01), ("locate-reset", None, None, 1.5), ("locate", "10.0.0.9", "IDENT")],
 ]
 
 
@@ -851,6 +859,8 @@ def check_manager_discoveries(ctx, only=None):
         for k, r in enumerate(recs):
             if r["step"] == "reset":
                 continue
+            if r["step"][0] == "locate-reset":
+                ctx.hist("manager_discoveries", "reset-while-listening")
             ctx.count("evaluations")
             ctx.hist("manager_discoveries", "filtered" if (r["step"][1] or r["step"][2]) else "unfiltered")
             ok = (r.get("spas") is not None and len(r["spas"]) == 1 and r["spas"][0][0] == c10.IDENT and r["spas"][0][2] == "10.0.0.9"
